@@ -178,6 +178,19 @@ func TestStructured(t *testing.T) {
 					rec.Class("length32_field_substitutions")
 				}
 			}
+			// a 32-bit body length together with a consistent-looking header length word (both unverified)
+			for _, f := range s.Fields {
+				if f.Kind == ref.Len32 && s.Hdr != ref.HdrNone {
+					for _, h := range []uint32{1 << 16, 1 << 20, 48 << 20, 1 << 30, 0x7fffff00, 0xffffff00} {
+						m := append([]byte{}, img...)
+						binary.BigEndian.PutUint32(m[info.Offsets[f.Name]:], h)
+						binary.BigEndian.PutUint32(m, h+uint32(len(img))-uint32(len(v.B(f.Ref))))
+						for _, tg := range targets {
+							probe(t, tg, m, false, fmt.Sprintf("%s := %#x with matching header length", f.Name, h), true)
+						}
+					}
+				}
+			}
 			// the length word of the header
 			if s.Hdr != ref.HdrNone {
 				for _, h := range hostile32 {
@@ -358,6 +371,56 @@ func FuzzDecodeAny(f *testing.F) {
 			}
 			path := rec.WriteReplay("probe", v)
 			t.Fatalf("VIOLATION-CASE property=C03 kind=probe key=%q replay=%s\n%s", v.Key, path, v.Msg)
+		}
+	})
+}
+
+// TestReceiptsHostile: delivery receipts in the standard key:value shape (any key order and subset, both
+// SMGP spellings, upper/lower case keys) whose values, prefix and suffix hold arbitrary octets: invalid
+// UTF-8, multi-octet runes whose case mapping changes their length, NULs, key tokens inside values,
+// values cut at any octet. Through the three receipt parsers.
+func TestReceiptsHostile(t *testing.T) {
+	keys := []string{"id:", "sub:", "Sub:", "dlvrd:", "Dlvrd:", "submit date:", "Submit_Date:", "done date:", "Done_Date:", "stat:", "Stat:", "err:", "Err:", "text:", "Text:", "ID:", "STAT:", "Id:"}
+	odd := [][]byte{{0xff}, {0x80}, {0xe9, 0xe8}, {0xc3}, []byte("\u212a"), []byte("\u0130"), []byte("\u023a"), []byte("\u1e9e"), {0xed, 0xa0, 0x80}, {0xf4, 0x90, 0x80, 0x80}, {0}, []byte("\u00e9"), []byte("\u4e2d")}
+	rapid.Check(t, func(t *rapid.T) {
+		var b []byte
+		chunk := func(label string) []byte {
+			n := rapid.IntRange(0, 6).Draw(t, label+"n")
+			var out []byte
+			for i := 0; i < n; i++ {
+				switch rapid.IntRange(0, 3).Draw(t, label+"k") {
+				case 0:
+					out = append(out, odd[rapid.IntRange(0, len(odd)-1).Draw(t, label+"o")]...)
+				case 1:
+					out = append(out, rapid.Byte().Draw(t, label+"b"))
+				default:
+					out = append(out, byte(rapid.IntRange(0x21, 0x7e).Draw(t, label+"a")))
+				}
+			}
+			return out
+		}
+		b = append(b, chunk("prefix")...)
+		nk := rapid.IntRange(0, 9).Draw(t, "nkeys")
+		for i := 0; i < nk; i++ {
+			if len(b) > 0 {
+				b = append(b, ' ')
+			}
+			b = append(b, keys[rapid.IntRange(0, len(keys)-1).Draw(t, "key")]...)
+			b = append(b, chunk("val")...)
+			if rapid.IntRange(0, 5).Draw(t, "keyinside") == 0 {
+				b = append(b, keys[rapid.IntRange(0, len(keys)-1).Draw(t, "key2")]...)
+			}
+		}
+		b = append(b, chunk("suffix")...)
+		if rapid.IntRange(0, 3).Draw(t, "truncate") == 0 && len(b) > 0 {
+			b = b[:rapid.IntRange(0, len(b)).Draw(t, "cut")]
+		}
+		rec.Class("hostile_receipts")
+		if len(b) <= 60 {
+			rec.Sample("receipt", Case{Target: "smpp34.ExtractDeliveryReceipt", Data: vk.Hex(b)})
+		}
+		for _, tg := range []string{"smpp34.ExtractDeliveryReceipt", "smgp30.ExtractDeliveryReceipt", "smgp30.ExtractDeliveryReceipt1"} {
+			probe(t, tg, b, false, "hostile receipt", nk > 0)
 		}
 	})
 }
